@@ -431,23 +431,28 @@ def _hooks(plan, ctx):
                 armed.clear()
         if any(f["kind"] == "truncated-confirm" for f in plan.get("faults", [])):
             # a message cut short leaves the length-prefixed deframer waiting for the rest: the next
-            # message, whenever it comes, completes the fragment and is lost with it.  One command is
-            # spent on that - it may fail or go unanswered in time, it must not hang - before recovery is judged
-            tok = world.unit.set("post.flush")
-            t_post = world.loop.time()
-            try:
-                await asyncio.wait_for(driver.send(cmds.mk_cmd(cmds.spec_of(_query(7)))), 60)
-            except asyncio.TimeoutError as e:
-                if world.loop.time() - t_post >= 59.9:
-                    rr.post.append(("hang", "post.flush", None, None, e))
-                    return
-            except Exception:                   # noqa: BLE001
-                pass
-            finally:
+            # message, whenever it comes, completes the fragment and is lost with it - and the tail of
+            # that message can look like the start of yet another one (a 0x59 among its bytes), which
+            # swallows the next in its turn.  Commands are spent on that - each may fail or go unanswered
+            # in time, none may hang - until one gets through (at most four) before recovery is judged
+            for _attempt in range(4):
+                tok = world.unit.set("post.flush")
+                t_post = world.loop.time()
                 try:
-                    world.unit.reset(tok)
-                except ValueError:
+                    await asyncio.wait_for(driver.send(cmds.mk_cmd(cmds.spec_of(_query(7)))), 60)
+                    break
+                except asyncio.TimeoutError as e:
+                    if world.loop.time() - t_post >= 59.9:
+                        rr.post.append(("hang", "post.flush", None, None, e))
+                        return
+                except Exception:                   # noqa: BLE001
                     pass
+                finally:
+                    try:
+                        world.unit.reset(tok)
+                    except ValueError:
+                        pass
+                world.probe("deframer-still-out-of-step-after-a-flush-command")
             await asyncio.sleep(0.2)
         # fresh sends after recovery
         n = plan.get("post_sends", 2)
